@@ -1,5 +1,5 @@
 """C03 - parsing builds the tree the grammar prescribes, for any layout (spec/ZnGrammar.tla)."""
-import random, json, os, common
+import json, random, os, common
 from common import log
 import gramfam
 
@@ -31,8 +31,10 @@ def well_formed(t):
     elif n == "If": ok = k in (3, 4) and t["c"][1]["n"] == "Block" and len(t["c"][1]["c"]) >= 1 and len(t["c"][2]["c"]) % 2 == 0
     elif n == "While": ok = k == 2 and t["c"][1]["n"] == "Block" and len(t["c"][1]["c"]) >= 1
     elif n == "Iter": ok = k == 3 and len(t["c"][2]["c"]) >= 1
-    elif n in ("Func", "Getter", "Ctor"): ok = k == 2 and t["c"][0]["n"] == "ID" and t["c"][1]["n"] == "Exec"
-    elif n == "Exec": ok = k == 3
+    elif n in ("Func", "Getter", "Ctor"):
+        ok = k == 2 and t["c"][0]["n"] == "ID" and t["c"][1]["n"] == "Exec" and len(t["c"][1]["c"]) == 3 and \
+            len(t["c"][1]["c"][1]["c"]) + len(t["c"][1]["c"][2]["c"]) >= 1
+    elif n == "Exec": ok = k == 3 and (len(t["c"][0]["c"]) == 0 or len(t["c"][1]["c"]) + len(t["c"][2]["c"]) >= 1)
     elif n == "Catch": ok = k == 2 and len(t["c"][1]["c"]) >= 1
     elif n == "Pair": ok = k == 2 and len(t["c"][0]["c"]) >= 1
     elif n == "Return": ok = k == 1
@@ -131,14 +133,48 @@ def run(ctx):
         wf = well_formed(r["tree"])
         if wf:
             rep("incomplete", "accepted tree is incomplete: %s" % wf)
-    cov = dict(traces_validated_against_impl=len(cases), samples=[dict(program=progs[3]["tag"], pieces=lay[50]["out"][:40], unit=lay[50]["unit"], eol=lay[50]["eol"])],
+    # ---- corrupted renderings (one token deleted / duplicated / swapped, one whole line dropped - TLC, Mutate): whatever the parser
+    # ACCEPTS must be a complete tree ("any tree the parser returns is complete"); what it rejects is C05's subject
+    def corruptible(p_):
+        return any(f.get("params") for f in p_.get("funcs", [])) or p_.get("classes") or p_.get("inputs") or p_.get("catches")
+    cand = [p_ for p_ in progs if corruptible(p_)]
+    small = [p_ for p_ in progs if p_.get("tag") == "one-statement-bodies"] + rnd.sample(cand, min(len(cand), 8 if quick else 40)) + rnd.sample(progs, 6 if quick else 30)
+    small = [json.loads(json.dumps(p_)) for p_ in {p_["id"]: p_ for p_ in small}.values()]
+    pf = os.path.join(ctx.scratch, "progs-mut.ndjson")
+    table = {}
+    open(pf, "w").write("".join(json.dumps(to_ascii(p_, table), ensure_ascii=True) + "\n" for p_ in small))
+    back = {v: k for k, v in table.items()}
+    mt, _ = common.tlc(ctx, "MC_ZnGrammar", "MC_ZnGrammar_mutate.cfg", timeout=3000, files=[(pf, "progs.ndjson")])
+    seenm = set(); mcases = []
+    for v in common.vectors(mt, "layout"):
+        v = from_ascii(v, back)
+        if v["dev"] == 0: continue
+        k = (v["id"], tuple(v["out"]))
+        if k in seenm: continue
+        seenm.add(k)
+        mcases.append(dict(id=len(mcases), out=v["out"], unit="sp4", eol="lf", pid=v["id"]))
+    mres = common.run_harness(ctx, znh, "parse", mcases, timeout=3000, args=["-t", "3"])
+    nacc = 0
+    for r in mres:
+        c = mcases[r["id"]]
+        if r["obs"] in ("timeout", "panic", "exit", "harness-error"):
+            common.report(ctx, "corrupt:%s" % r["obs"], "parser %s on a corrupted rendering of '%s'" % (r["obs"], byprog[c["pid"]].get("tag")), dict(text=r.get("text"), result=r.get("detail")))
+        elif r["obs"] == "tree":
+            nacc += 1
+            wf = well_formed(r["tree"])
+            if wf:
+                common.report(ctx, "corrupt:incomplete:" + wf.split(" (")[0], "a corrupted rendering of '%s' is ACCEPTED with an incomplete tree: %s" % (byprog[c["pid"]].get("tag"), wf),
+                              dict(text=r.get("text"), tree=r["tree"]))
+    log("[C03] %d corrupted renderings of %d programs, %d accepted (all checked complete)" % (len(mcases), len(small), nacc))
+    cov = dict(traces_validated_against_impl=len(cases) + len(mcases), corrupted_renderings=len(mcases), corrupted_accepted=nacc, samples=[dict(program=progs[3]["tag"], pieces=lay[50]["out"][:40], unit=lay[50]["unit"], eol=lay[50]["eol"])],
                evaluations=len(cases), distinct_nontrivial=len(cases),
                rule="%d programs covering every statement kind, expression form and program section (imports, inputs, types with properties/getters/methods/constructors, methods with "
                     "handlers, statements, handlers; drawn from the hand-written grammar family and from the C02/C06/C07/C08/C09 families). For each program TLC computes Tree(prog) "
                     "(checked complete) and Tokens(prog), and the layout machine emits: the canonical rendering, EVERY rendering with exactly one deviation (synonym spelling, ASCII "
                     "punctuation, comparison / logic operators written without surrounding blanks, extra blank, /* */ comment, end-of-line // and 注： comments, blank line, comma before 且/或/得到, line break after 【 ， 、 { and before 】 }), all 6 "
                     "combinations of indentation unit x line terminator, the rendering with braces only where the documented precedence table requires them (MinBrace), and %d simulated renderings with up to 5 deviations; every rendering is parsed by the real parser and the "
-                    "dumped tree must equal Tree(prog) (hence all renderings agree) and be complete" % (len(progs), 400 if quick else 6000),
+                    "dumped tree must equal Tree(prog) (hence all renderings agree) and be complete. Plus every rendering of a sample of the programs with one token deleted / duplicated / swapped or one "
+                    "whole line dropped (TLC, Mutate): whatever the parser accepts must be a complete tree (a definition has a body, an 输入 line is followed by statements, ...)" % (len(progs), 400 if quick else 6000),
                programs=len(progs), deviation_kinds=devkinds)
     return cov, ["expressions are rendered with braces around compound operands, except in the MinBrace rendering (grouping by the precedence table; the VALUES are C01's subject)",
                  "layout freedom is limited to the positions the manual exemplifies (DESIGN C03)", "identifier glyphs: ASCII names and the predefined Chinese names"]
